@@ -120,6 +120,7 @@ pub struct RunOpts<'a> {
     pub final_dump: bool,
     /// use a fresh server for this case when it contains blocking commands
     pub fresh_server_if_blocking: bool,
+    pub script_uncertain: bool,
 }
 
 fn short_reply(r: &Reply) -> String {
@@ -178,6 +179,7 @@ pub fn run_script(wk: &mut Worker, steps: &[Step], o: &RunOpts) -> CaseResult {
     let mut world = World::new(o.nconns);
     world.timed = o.timed;
     world.lenient_scripts = o.lenient_scripts;
+    world.script_uncertain = o.script_uncertain;
     {
         let active = o.active.clone();
         let exf = o.excluder_fn;
